@@ -3,7 +3,7 @@ CONSTANTS
   OORD <- c_OORD
   KORD <- c_KORD
   GENVALS <- c_GENVALS
-  DEVS <- c_DEVS_none
+  DEVS <- c_DEVS_design
   DECI = 0
   PREC = 1
   AMOUNTS = {1}
